@@ -434,6 +434,53 @@ def random_graphs(rng, count, maxn=12):
         yield rng.shuffle(g)
 
 
+def planted_graphs(rng, count, maxn=14):
+    """S5: graphs that are valid by construction (plain targets, dependencies on earlier nodes only, no inputs, every output path
+    unique) EXCEPT for one planted conflict between two targets that are not ordered by dependency -- or none at all (must be
+    accepted).  No other defect can mask the verdict, and the many ordered overlaps (a dependant rewriting its dependency's
+    output is allowed) and shared dependants keep the ancestor-set memo of the conflict detection busy before the planted pair
+    is examined (docker-tag pairs and equal files are examined before directories)."""
+    def add(lst, x):
+        if x not in lst:          # the same output twice in ONE target is finding C11-F2's subject, not this stream's
+            lst.append(x)
+    for _ in range(count):
+        n = 5 + rng.below(maxn - 4)
+        deps = [[j for j in range(i) if rng.chance(1, 3)] for i in range(n)]
+        # reachability (i reaches j: j is an ancestor of i)
+        anc = [set() for _ in range(n)]
+        for i in range(n):
+            for j in deps[i]:
+                anc[i] |= {j} | anc[j]
+        outs = [[("f", "u%d" % i)] if rng.chance(2, 3) else [] for i in range(n)]
+        # ordered overlaps: a dependant writes the same file / image / inside the directory of one of its ancestors
+        for i in range(n):
+            if anc[i] and rng.chance(1, 2):
+                j = rng.choice(sorted(anc[i]))
+                kind = rng.choice(["file", "img", "dir"])
+                if kind == "file":
+                    add(outs[j], ("f", "s%d" % j)); add(outs[i], ("f", "s%d" % j))
+                elif kind == "img":
+                    add(outs[j], ("k", "img%d" % j)); add(outs[i], ("k", "img%d" % j))
+                else:
+                    add(outs[j], ("d", "dd%d" % j)); add(outs[i], ("f", "dd%d/x%d" % (j, i)))
+        unordered = [(a, b) for a in range(n) for b in range(a) if b not in anc[a] and a not in anc[b]]
+        planted = None
+        if unordered and rng.chance(3, 4):
+            a, b = rng.choice(unordered)
+            kind = rng.choice(["file", "dirfile", "dirdir", "img"])
+            if kind == "file":
+                add(outs[a], ("f", "clash")); add(outs[b], ("f", "clash"))
+            elif kind == "dirfile":
+                add(outs[a], ("d", "cl")); add(outs[b], ("f", "cl/in"))
+            elif kind == "dirdir":
+                add(outs[a], ("d", "cl")); add(outs[b], ("d", "cl/sub"))
+            else:
+                add(outs[a], ("k", "clashimg")); add(outs[b], ("k", "clashimg"))
+            planted = (a, b, kind)
+        g = [T("p1", "n%d" % i, deps=[("p1", "n%d" % j) for j in rng.shuffle(deps[i])], outs=outs[i]) for i in range(n)]
+        yield rng.shuffle(g)
+
+
 def path_lines(tier):
     """S5: the path functions themselves on every string over {/ . a b} up to a length bound."""
     n = 6 if tier == "quick" else 8
@@ -537,6 +584,7 @@ def run(out, tier):
     streams += [("triple", g) for g in s2b]
     streams += [("product", g) for g in product_sample(rng, 20000 if quick else 600000)]
     streams += [("random", g) for g in random_graphs(rng, 3000 if quick else 60000)]
+    streams += [("planted", g) for g in planted_graphs(rng, 1500 if quick else 30000)]
     graphs = [g for _, g in streams]
     glines = [wire(g) for g in graphs]
     plines = path_lines(tier)
